@@ -34,6 +34,7 @@ func Main(c *run.Ctx) {
 		"each is followed by a well-formed canary push; distinct key = route class × content type × mutation operator × answer class")
 	c.Assume("a request unanswered after 15 s counts as wedged only if two goroutine dumps 2 s apart show the same goroutine of the request in the same qryn frames")
 	c.Assume("database = fake insert client that always succeeds")
+	c.Assume("every second lane runs with GOMAXPROCS 1 or 2, the others with all processors")
 	total := c.Pick(12000, 240000)
 	lanes := c.Pick(8, 14)
 	per := (total + lanes - 1) / lanes
@@ -45,7 +46,13 @@ func Main(c *run.Ctx) {
 			start, end := l*per, min(total, (l+1)*per)
 			for start < end {
 				cc := childCfg{Start: start, N: end - start, Lane: l}
-				out := c.RunChild(run.ChildSpec{Prop: "C05", Name: "fuzz", Cfg: cc, Timeout: 20 * time.Minute, MemKB: 24 << 20})
+				// odd lanes run the writer on one or two processors (a small pod): goroutines a request starts queue
+				// behind the one that started them, instead of running beside it
+				var env []string
+				if l%2 == 1 {
+					env = []string{fmt.Sprintf("GOMAXPROCS=%d", 1+(l/2)%2)}
+				}
+				out := c.RunChild(run.ChildSpec{Prop: "C05", Name: "fuzz", Cfg: cc, Env: env, Timeout: 20 * time.Minute, MemKB: 24 << 20})
 				if out.Completed {
 					break
 				}
@@ -84,7 +91,7 @@ func Main(c *run.Ctx) {
 		c.Floor("route:"+r, 1, 0)
 	}
 	c.Floor("canary pushes acknowledged and found intact", total/4, 0)
-	c.Floor("multi-portion bodies pushed while another client pushes", total/100, 0)
+	c.Floor("multi-portion bodies pushed while another client pushes", c.Pick(100, 300), 0)
 	c.Floor("multi-portion bodies uploaded slowly while every INSERT fails", c.Pick(10, 200), 0)
 }
 
@@ -127,6 +134,23 @@ func qrynActive(gs []run.Goroutine) map[string]run.Goroutine {
 	return out
 }
 
+// stuckInQryn: goroutines with qryn frames (outside the whitelist) that sit in the same frames in two dumps 2 s apart.
+func stuckInQryn() []run.Goroutine {
+	d1 := qrynActive(run.Census())
+	time.Sleep(2 * time.Second)
+	d2 := qrynActive(run.Census())
+	var stuck []run.Goroutine
+	for id, g := range d1 {
+		if g2, ok := d2[id]; ok && strings.Join(g.QrynFrames(), "<") == strings.Join(g2.QrynFrames(), "<") {
+			st := strings.SplitN(g2.State, ",", 2)[0]
+			if st != "running" && st != "runnable" {
+				stuck = append(stuck, g2)
+			}
+		}
+	}
+	return stuck
+}
+
 func Child(c *run.Ctx, name string) {
 	var cfg childCfg
 	if err := run.ChildCfg(&cfg); err != nil {
@@ -150,6 +174,7 @@ func Child(c *run.Ctx, name string) {
 	canaries = append(canaries, warm)
 	time.Sleep(50 * time.Millisecond)
 	base := run.CensusCount(run.Census(), whitelist)
+	nBig := 0
 	for i := 0; i < cfg.N; i++ {
 		gi := cfg.Start + i
 		r := c.Rng(fmt.Sprintf("c05/case/%d", gi))
@@ -173,7 +198,8 @@ func Child(c *run.Ctx, name string) {
 				c.Cover("db-down big body", "answered 2xx (C01's subject)", 1)
 			}
 		}
-		if gi%50 == 7 {
+		if gi%50 == 7 && nBig < 40 {
+			nBig++ // the ledger keeps every row of the child: a bounded number of multi-MiB bodies per child
 			// a body of several MiB (the parser hands it on in portions while it is still reading), whole or cut off
 			// near its end, while another client's well-formed pushes arrive: the portions already handed on are being
 			// copied into the shared batch while the parser works on the next one
@@ -181,7 +207,7 @@ func Child(c *run.Ctx, name string) {
 			proto := []string{"loki-json-values", "loki-json-entries", "loki-json-values"}[rr.Intn(3)]
 			// either every stream is a portion of its own, or one stream crosses the portion size and short ones follow
 			// (the next portion is then ready microseconds after the first was handed on)
-			lo := gen.LogOpts{ID: fmt.Sprintf("bg%d", gi), Proto: proto, Streams: 6, MaxEntries: 3, BaseNs: 1700000000000000000, Huge: true}
+			lo := gen.LogOpts{ID: fmt.Sprintf("bg%d", gi), Proto: proto, Streams: 3, MaxEntries: 3, BaseNs: 1700000000000000000, Huge: true}
 			if rr.Intn(2) == 0 {
 				lo.Huge, lo.Big, lo.Streams = false, true, 2+rr.Intn(4)
 			}
@@ -207,6 +233,13 @@ func Child(c *run.Ctx, name string) {
 			br := sess.Send(3, &big)
 			wgb.Wait()
 			canaries = append(canaries, side...)
+			if !cut && br.Status >= 200 && br.Status < 300 {
+				// a whole, well-formed body that was acknowledged: its rows are judged like a canary's (each in a
+				// successful block, none torn), so that portions mixed up among themselves are seen too
+				bi := &chw.Item{Kind: "logs", Req: big, Phase: "canary"}
+				bi.Rec = br
+				canaries = append(canaries, bi)
+			}
 			c.Floor("multi-portion bodies pushed while another client pushes", 0, 1)
 			c.Cover("big body", fmt.Sprintf("%s one-portion-per-stream=%v cut=%v answered %dxx", proto, lo.Huge, cut, br.Status/100), 1)
 			if br.Status == 0 {
@@ -283,6 +316,12 @@ func Child(c *run.Ctx, name string) {
 		cn := mkCanary(gi)
 		cn.Rec = sess.Send(2, &cn.Req)
 		canaries = append(canaries, cn)
+		if cn.Rec.Status == 0 && timedOut(cn.Rec.Err) && len(stuckInQryn()) == 0 {
+			// no answer within the client timeout and nothing of the request sits still in qryn code: a loaded
+			// machine, not a verdict
+			c.Undecided("canary push unanswered at the client timeout, no goroutine stuck in qryn frames")
+			os.Exit(exitStall)
+		}
 		if cn.Rec.Status < 200 || cn.Rec.Status > 299 {
 			c.Violation("canary-rejected-after/"+routeOf(hc)+"/"+strings.SplitN(hc.Op, ":", 2)[0], fmt.Sprintf("after %s %s (operator %s, answered %d) a well-formed %s push was answered %d %s %s: the server no longer serves other clients' requests correctly",
 				hc.Req.Method, hc.Req.Path, hc.Op, rec.Status, cn.Req.Proto, cn.Rec.Status, clipS(cn.Rec.Body, 150), cn.Rec.Err),
